@@ -259,3 +259,78 @@ Proof.
   - destruct Hb3 as [E|[x [Hx E]]]; [exists y0; split; [left; reflexivity|exact E] | exists x; split; [right; exact Hx|exact E]].
   - destruct Ht3 as [E|[x [Hx E]]]; [exists y0; split; [left; reflexivity|exact E] | exists x; split; [right; exact Hx|exact E]].
 Qed.
+
+(* ---------------- parallel_lines_parameters ---------------- *)
+Ltac vsimp_in H := cbn [vadd vsub vmul vdiv vneg vabs vlt vle veq vne vnot vand vor truth vidx vidx2 vcol vdot vscale nth map V2
+                        negb andb orb Bool.eqb] in H.
+Ltac break_ifs H :=
+  repeat (match type of H with context [if ?c then _ else _] => let E := fresh "E" in destruct c eqn:E; vsimp_in H end).
+Lemma Qdiv_unit a b : 0 <= a -> a <= b -> 0 < b -> 0 <= a / b <= 1.
+Proof. intros Ha Hab Hb. split; [apply Qle_shift_div_l; lra | apply Qle_shift_div_r; lra]. Qed.
+Ltac qfin :=
+  match goal with
+  | |- _ == _ => field; intro; lra
+  | |- 0 <= _ / _ <= 1 => apply Qdiv_unit; lra
+  | |- _ / ?d <= _ / ?d => unfold Qdiv; apply Qmult_le_compat_r; [lra | apply Qinv_le_0_compat; lra]
+  | |- 0 <= _ / _ => apply Qle_shift_div_l; lra
+  | |- _ / _ <= 1 => apply Qle_shift_div_r; lra
+  | |- _ => lra
+  end.
+Definition params (ss es st et : Q) : val := VTup [VTup [VQ ss; VQ es]; VTup [VQ st; VQ et]].
+
+(* When a shared segment is reported: all four parameters are in [0,1], the second-curve parameters are ordered,
+   and each column is one point in both parametrisations (s = a + t (b - a), where a, b are the first-curve
+   parameters of the second segment's end points). *)
+Theorem parallel_lines_shared_segment x0 y0 x1 y1 x2 y2 x3 y3 ss es st et :
+  ~ (x1 - x0) * (x1 - x0) + (y1 - y0) * (y1 - y0) == 0 ->
+  py_parallel_lines_parameters (V2 x0 y0) (V2 x1 y1) (V2 x2 y2) (V2 x3 y3) = VTup [VB false; params ss es st et] ->
+  exists a b, a * ((x1 - x0) * (x1 - x0) + (y1 - y0) * (y1 - y0)) == (x2 - x0) * (x1 - x0) + (y2 - y0) * (y1 - y0) /\
+              b * ((x1 - x0) * (x1 - x0) + (y1 - y0) * (y1 - y0)) == (x3 - x0) * (x1 - x0) + (y3 - y0) * (y1 - y0) /\
+    0 <= ss <= 1 /\ 0 <= es <= 1 /\ 0 <= st <= 1 /\ 0 <= et <= 1 /\ st <= et /\
+    ss == a + st * (b - a) /\ es == a + et * (b - a) /\
+    (* the start of the second segment lies on the line of the first *)
+    x0 * (y1 - y0) - y0 * (x1 - x0) == x2 * (y1 - y0) - y2 * (x1 - x0).
+Proof.
+  intros Hn H0. unfold py_parallel_lines_parameters, py_cross_product, params in H0. vsimp_in H0.
+  destruct (Qeqb (x0 * (y1 - y0) - y0 * (x1 - x0)) (x2 * (y1 - y0) - y2 * (x1 - x0))) eqn:Ecol; vsimp_in H0; [|discriminate].
+  assert (En : Qeqb ((x1 - x0) * (x1 - x0) + ((y1 - y0) * (y1 - y0) + 0)) 0 = false).
+  { apply Qeqb_neq. intro G. apply Hn. rewrite <- G. ring. }
+  rewrite !En in H0. vsimp_in H0.
+  set (a := ((x2 - x0) * (x1 - x0) + ((y2 - y0) * (y1 - y0) + 0)) / ((x1 - x0) * (x1 - x0) + ((y1 - y0) * (y1 - y0) + 0))) in *.
+  set (b := ((x3 - x0) * (x1 - x0) + ((y3 - y0) * (y1 - y0) + 0)) / ((x1 - x0) * (x1 - x0) + ((y1 - y0) * (y1 - y0) + 0))) in *.
+  exists a, b. split; [subst a; field; intro G; apply Hn; rewrite <- G; ring|].
+  split; [subst b; field; intro G; apply Hn; rewrite <- G; ring|].
+  apply Qeqb_eq in Ecol.
+  clearbody a b. clear En Hn.
+  break_ifs H0; try discriminate; inversion H0; subst; clear H0; qprops; repeat split; try exact Ecol; qfin.
+Qed.
+
+(* "disjoint" is returned exactly when the second segment does not start on the first line or the parameter
+   intervals [0,1] and [a,b] (resp. [b,a]) do not meet *)
+Theorem parallel_lines_disjoint_iff x0 y0 x1 y1 x2 y2 x3 y3 a b :
+  ~ (x1 - x0) * (x1 - x0) + (y1 - y0) * (y1 - y0) == 0 ->
+  a * ((x1 - x0) * (x1 - x0) + (y1 - y0) * (y1 - y0)) == (x2 - x0) * (x1 - x0) + (y2 - y0) * (y1 - y0) ->
+  b * ((x1 - x0) * (x1 - x0) + (y1 - y0) * (y1 - y0)) == (x3 - x0) * (x1 - x0) + (y3 - y0) * (y1 - y0) ->
+  (py_parallel_lines_parameters (V2 x0 y0) (V2 x1 y1) (V2 x2 y2) (V2 x3 y3) = VTup [VB true; VNone] <->
+   (~ x0 * (y1 - y0) - y0 * (x1 - x0) == x2 * (y1 - y0) - y2 * (x1 - x0)) \/ (a < 0 /\ b < 0) \/ (1 < a /\ 1 < b)).
+Proof.
+  intros Hn Ha Hb.
+  set (n := (x1 - x0) * (x1 - x0) + (y1 - y0) * (y1 - y0)) in *.
+  assert (Ea : a == ((x2 - x0) * (x1 - x0) + ((y2 - y0) * (y1 - y0) + 0)) / ((x1 - x0) * (x1 - x0) + ((y1 - y0) * (y1 - y0) + 0))).
+  { assert (G : (x2 - x0) * (x1 - x0) + ((y2 - y0) * (y1 - y0) + 0) == a * n) by (rewrite Ha; ring).
+    rewrite G. subst n. field. intro G2. apply Hn. rewrite <- G2. ring. }
+  assert (Eb : b == ((x3 - x0) * (x1 - x0) + ((y3 - y0) * (y1 - y0) + 0)) / ((x1 - x0) * (x1 - x0) + ((y1 - y0) * (y1 - y0) + 0))).
+  { assert (G : (x3 - x0) * (x1 - x0) + ((y3 - y0) * (y1 - y0) + 0) == b * n) by (rewrite Hb; ring).
+    rewrite G. subst n. field. intro G2. apply Hn. rewrite <- G2. ring. }
+  unfold py_parallel_lines_parameters, py_cross_product. vsimp.
+  destruct (Qeqb (x0 * (y1 - y0) - y0 * (x1 - x0)) (x2 * (y1 - y0) - y2 * (x1 - x0))) eqn:Ecol; vsimp; qprops.
+  2:{ split; [intros _; left; exact Ecol | reflexivity]. }
+  assert (En : Qeqb ((x1 - x0) * (x1 - x0) + ((y1 - y0) * (y1 - y0) + 0)) 0 = false).
+  { apply Qeqb_neq. intro G. apply Hn. subst n. rewrite <- G. ring. }
+  rewrite !En. vsimp.
+  set (qa := ((x2 - x0) * (x1 - x0) + ((y2 - y0) * (y1 - y0) + 0)) / ((x1 - x0) * (x1 - x0) + ((y1 - y0) * (y1 - y0) + 0))) in *.
+  set (qb := ((x3 - x0) * (x1 - x0) + ((y3 - y0) * (y1 - y0) + 0)) / ((x1 - x0) * (x1 - x0) + ((y1 - y0) * (y1 - y0) + 0))) in *.
+  clearbody qa qb. clear En Hn Ha Hb.
+  repeat (match goal with |- context [if ?c then _ else _] => let E := fresh "E" in destruct c eqn:E; vsimp end);
+    qprops; (split; [intros H; try discriminate; try (right; lra) | intros [H|[[? ?]|[? ?]]]; try reflexivity; try contradiction; try lra]).
+Qed.
